@@ -299,6 +299,13 @@ fn main() {
         sink.merge(sx);
     }
     {
+        // field cross products: encrypted_server_name (suite x group x key-share size x digest x name sizes), key_share (group x size)
+        let mut k = cat::esni_grid();
+        k.extend(cat::group_size_extensions());
+        let sx = par_run(run.threads, k.len(), |i, sink| check_single(&k[i].buf, sink));
+        sink.merge(sx);
+    }
+    {
         let k = cat::text_extensions();
         let sx = par_run(run.threads, k.len(), |i, sink| check_single(&k[i].buf, sink));
         sink.merge(sx);
